@@ -366,9 +366,33 @@ func VerifH_C03_fill_orders_and_migration() {
 	for i := 1; i <= n; i++ {
 		verifAssert(seen[i] == 1, "every-key-visited-exactly-once")
 	}
-	drop := 1 + verifChoose("drop", n)
-	t.Set(IntValue(int64(drop)), NilValue)
-	verifAssert(t.Get(IntValue(int64(drop))).IsNil(), "cleared-key-is-gone")
-	l := t.Len()
-	verifAssert(l >= 0 && l <= int64(n) && (l == 0 || !t.Get(IntValue(l)).IsNil()) && t.Get(IntValue(l+1)).IsNil(), "length-is-a-border-after-clearing")
+	// drain the table completely, from the front, from the back, or starting
+	// in the middle: after every removal the key is gone, the others are
+	// intact and the length is a border
+	dir := verifChoose("drain", 3)
+	first := 1 + verifChoose("drop", n)
+	gone := make([]bool, n+1)
+	for step := 0; step < n; step++ {
+		var k int
+		switch dir {
+		case 0:
+			k = (first-1+step)%n + 1
+		case 1:
+			k = (first-1+n-step)%n + 1
+		default:
+			k = step + 1 // front to back (a queue)
+		}
+		t.Set(IntValue(int64(k)), NilValue)
+		gone[k] = true
+		for i := 1; i <= n; i++ {
+			if gone[i] {
+				verifAssert(t.Get(IntValue(int64(i))).IsNil(), "cleared-key-is-gone")
+			} else {
+				verifAssert(vhSameValue(t.Get(IntValue(int64(i))), vals[i]), "other-keys-intact-after-clearing")
+			}
+		}
+		l := t.Len()
+		verifAssert(l >= 0 && l <= int64(n) && (l == 0 || !t.Get(IntValue(l)).IsNil()) && t.Get(IntValue(l+1)).IsNil(), "length-is-a-border-after-clearing")
+	}
+	verifAssert(t.Len() == 0, "empty-table-has-length-0")
 }
